@@ -22,10 +22,10 @@ CLAIMS = {
             "(a) TLC checks C04_IndentIrrelevant on clean_doc_lines for every block x indentation and replays indented/unindented pairs on the real function; (b) TLC checks that the same tokens under any trivia of the catalogue lex to the same tokens (RefAgree on the comment-rich menu), replayed on the real lexer/parser; (c) every witness program of the aggregator model is run through the real pipeline in a baseline layout and in seeded variant layouts (catalogue trivia between all tokens, re-indented doccomments, re-cased names, CRLF) and the pages compared byte for byte.",
             "trivia only between tokens with a whitespace kept between arguments; variants are a seeded sample of the layout space", "4 C04"),
     "C05": ("spec/CMakeLex.tla, CMakeGen.tla, MC_C05.tla, TraceLex.tla, CMakeLang.tla, CMakeParse.tla, TraceParse.tla",
-            "CMakeParse.tla models the parser between lexer and aggregator (token kinds -> accept/error and listener events) and TLC checks that it accepts exactly the language described by the parenthesis depth profile, with one command event per top-level command and the stream's direct-argument boundaries; every in-language token stream up to the bound is written out and must be accepted by the real Documenter with those boundaries. The generated lexer is modelled as the step machine ANTLR runs (parallel rules by derivatives, last-accept register, rule priority, non-greedy stop, EOF symbol, error recovery); TLC builds files from the productions of cmake-language(7) with boundaries known by construction and checks RefAgree; every file is run through the real lexer/parser/Documenter (acceptance, command sequence, argument texts and positions); token streams and error spans of the real lexer on fixtures, random modules, noise strings and the modules shipped with CMake are validated character step by character step by TLC (TraceLex.tla); corpus modules that CMake itself parses must be processed cleanly.",
+            "CMakeParse.tla models the parser between lexer and aggregator (token kinds -> accept/error and listener events) and TLC checks that it accepts exactly the language described by the parenthesis depth profile, with one command event per top-level command and the stream's direct-argument boundaries; every in-language token stream up to the bound is written out and must be accepted by the real Documenter with those boundaries. The generated lexer is modelled as the step machine ANTLR runs (parallel rules by derivatives, last-accept register, rule priority, non-greedy stop, EOF symbol, error recovery); TLC builds files from the productions of cmake-language(7) with boundaries known by construction and checks RefAgree; every file is run through the real lexer/parser/Documenter (acceptance, command sequence, argument texts and positions); token streams and error spans of the real lexer on fixtures, random modules, noise strings and the modules shipped with CMake are validated character step by character step by TLC (TraceLex.tla); corpus modules that CMake itself parses must be processed cleanly; every module with doccomments is followed in the same process by its twin whose doccomments are plain bracket comments of the same length (same commands at the same offsets, undocumented), which must be processed to completion too.",
             "class alphabet; bracket levels {0,1,2} in generation ({0,1,2,4,40,70,71} for the corpus); legacy constructs and BOM out of scope", "4 C05"),
     "C06": ("spec/CMinx.tla, CMakeParse.tla, CMakeLex.tla, CMakeGen.tla (InjectFault), MC_C05.tla",
-            "CMinx.tla: the pipeline as one machine (fault kinds x file order x input mode) replayed through cminx.main; CMakeParse.tla: every token stream up to the bound that leaves the language (unbalanced parentheses, stray tokens, bare words) must make the real Documenter.process raise. TLC builds valid files from the reference productions, injects one fault string at every position and predicts with the lexer/parser model whether the fault is noticed; every faulted file goes through the real cminx.main as a single input and inside a directory: where the reference rejects the file (cmake -P parse error, or backslash before an alphanumeric per the manual) an error, non-zero status and no .rst are demanded, and a page must never be written when the real lexer skipped characters.",
+            "CMinx.tla: the pipeline as one machine (fault kinds x file order x input mode) replayed through cminx.main; CMakeParse.tla: every token stream up to the bound that leaves the language (unbalanced parentheses, stray tokens, bare words) must make the real Documenter.process raise. TLC builds valid files from the reference productions, injects one fault string at every position and predicts with the lexer/parser model whether the fault is noticed; every faulted file goes through the real cminx.main as a single input and inside a directory: where the reference rejects the file (cmake -P parse error, or backslash before an alphanumeric per the manual) an error, non-zero status and no .rst are demanded, and a page must never be written when the real lexer skipped characters; the pipeline machine (CMinx.tla) is replayed in three input modes: separate inputs, one directory, and separate inputs whose pages collide in one output file.",
             "faults inside comments / bracket arguments and backslash-newline not judged; single faults (pairs via -simulate not yet); known finding K3", "4 C06"),
     "C07": ("spec/EntryRender.tla, RstWriter.tla, MC_C07.tla; docutils 0.23 with stub directives",
             "TLC renders every page of the menu (entry kinds x doc shapes, pairs, classes with members and inner classes) through the transcription of documentation_types.py on the writer model and checks C07_TitleModuleEntries, C07_ContentInsideOwnDirective, C07_EntriesDisjoint, IndentExact, OptionsFirst; each page is produced for real from CMake source, compared character for character with the specification's lines, and parsed by docutils: no error-level message, title/module/entries as siblings, doc text and members nested in their own entry only; the repository's sample pages are parsed the same way.",
@@ -45,11 +45,11 @@ CLAIMS = {
     "C12": ("spec/Naming.tla, MC_C12.tla",
             "TLC enumerates all run descriptors of the menu (36 000) and checks C12_Names, StartsWithPrefixSep, ExtDropped, Injective on the three-step naming machine; behaviours are replayed through the real cminx.main in a sandbox (cwd, HOME, settings file synthesised) and the first lines, the module directive and the first entry's doc compared with the ideal.",
             "module doccomments at indentation 0; upper-case extensions not judged for dropping; quick tier replays a seeded sample", "4 C12"),
-    "C13": ("spec/Walk.tla, MC_Walk.tla",
-            "TLC explores the walk of cminx.document (file system as state, listing order as environment choice, output directory inside or outside the input tree) and checks C13_PagesAreProcessedFiles, C13_OneIndexPerProcessedDir, C13_OnePagePerFile, C13_NoDivergence against the ideal computed from the initial tree; every terminal behaviour is materialised and run through the real cminx.document with the listing orders imposed; compared: the exact set of files under the output directory (or the documented files in stdout mode) and the body of every page with that of the file documented on its own (captured per worker before any directory run), also into an output directory that holds longer pages of an earlier run; trees include linked, hidden, empty, module-documented and multi-dot files; each behaviour is replayed under three listing orders; real walks over random trees are recorded visit by visit and validated by TLC (TraceWalk.tla), which evaluates the C13 predicates on the observed effects.",
+    "C13": ("spec/Walk.tla, MC_Walk.tla, GenRst.tla, MC_GenRst.tla",
+            "TLC explores the walk of cminx.document (file system as state, listing order as environment choice, output directory inside or outside the input tree) and checks C13_PagesAreProcessedFiles, C13_OneIndexPerProcessedDir, C13_OnePagePerFile, C13_NoDivergence against the ideal computed from the initial tree; every terminal behaviour is materialised and run through the real cminx.document with the listing orders imposed; compared: the exact set of files under the output directory (or the documented files in stdout mode) and the body of every page with that of the file documented on its own (captured per worker before any directory run), also into an output directory that holds longer pages of an earlier run; trees include linked, hidden, empty, module-documented and multi-dot files; each behaviour is replayed under three listing orders; real walks over random trees are recorded visit by visit and validated by TLC (TraceWalk.tla), which evaluates the C13 predicates on the observed effects; GenRst.tla histories (edits incl. a directory losing its only CMake file, page deletions, a second output directory; C19_TreeIsCurrent, OtherTargetUntouched) are replayed as one process per call and as calls inside ONE process.",
             "tree/pattern menus and bounds as in evidence; colliding output paths (index.cmake) out of scope; string functions on names are inputs", "4 C13"),
-    "C14": ("spec/Walk.tla, MC_Walk.tla",
-            "TLC checks C14_ToctreeExact, C14_NoDangling, C14_Reachable, C14_IndexTitle on the specification; replayed behaviours compare title and toctree entries of every generated index.rst with the processed files/sub-directories; closure (no dangling entry, every page listed) is demanded of every run whatever the tree; symbolic links to directories with follow_symlinks on/off (repaired F17, the pre-fix model is the witness); two directory inputs on one command line; recorded walks over random trees are validated by TLC (TraceWalk.tla).",
+    "C14": ("spec/Walk.tla, MC_Walk.tla, GenRst.tla, MC_GenRst.tla",
+            "TLC checks C14_ToctreeExact, C14_NoDangling, C14_Reachable, C14_IndexTitle on the specification; replayed behaviours compare title and toctree entries of every generated index.rst with the processed files/sub-directories; closure (no dangling entry, every page listed) is demanded of every run whatever the tree; symbolic links to directories with follow_symlinks on/off (repaired F17, the pre-fix model is the witness); two directory inputs on one command line; recorded walks over random trees are validated by TLC (TraceWalk.tla); GenRst.tla histories (a directory loses / regains its only CMake file between calls) are replayed as calls of main() inside one process and the final tree compared with a fresh run.",
             "as C13; separators from {'.', '::'}", "4 C14"),
     "C15": ("spec/Walk.tla, MC_Walk.tla",
             "TLC checks C15_ProcessedIffNotMatched, C15_NotDescended, C15_ExcludedNotScanned, C15_WholeInputExcluded for every pattern set of the menu and every listing permutation; replayed behaviours compare the documented files with the non-excluded ones and the directories listed (os.walk roots, os.scandir calls) with the excluded set, under three listing orders each; several patterns are split over -e, the -s file and the per-user file; the packaged entry script src/main.py is exercised with glob patterns; in recorded walks over random trees every observed PathSpec.match_file result is compared by TLC with Walk.Match.",
@@ -57,11 +57,11 @@ CLAIMS = {
     "C16": ("spec/Config.tla, MC_C16.tla, TraceConfig.tla",
             "TLC checks C16_Precedence, C16_WrongTypeRejected, C16_ExcludesUnion on the source-stacking machine (Configuration, set_file, set_args, get, all_contents) for every option x every subset of sources, and pairs of options; every behaviour is replayed through the real cminx.main with synthesised YAML sources and the Settings object handed to cminx.document compared field by field, incl. exclude-filter concatenation, output-directory resolution and rejection of wrong-typed values; in the other direction every one of these runs is recorded (a recording subclass in place of cminx.Configuration logs the source list after the constructor, set_file, set_args and the outcome of get) and validated event by event by TLC against the same actions (TraceConfig.tla; a copy with a reversed source list must be rejected).",
             "wrong types only in the effective source; StrSeq leniency and logging section not judged", "4 C16"),
-    "C17": ("spec/Runs.tla, MC_Runs.tla",
-            "TLC checks on the main()-loop machine (shared Settings object, deep copy per input, default prefix written into the copy) that page content depends on input and settings only for every run descriptor x command line of the menu; a seeded sample of the behaviours is executed for real, one OS process each (cwd, spelling, location, PYTHONHASHSEED, listing order through os.walk, repeat, companion inputs before/after) and every generated file compared byte for byte with the canonical run of each input alone; page bodies of selected files are also compared with the file documented alone (nothing a process documented earlier may show); runs go through the packaged entry script src/main.py.",
+    "C17": ("spec/Runs.tla, MC_Runs.tla, GenRst.tla, MC_GenRst.tla",
+            "TLC checks on the main()-loop machine (shared Settings object, deep copy per input, default prefix written into the copy) that page content depends on input and settings only for every run descriptor x command line of the menu; a seeded sample of the behaviours is executed for real, one OS process each (cwd, spelling, location, PYTHONHASHSEED, listing order through os.walk, repeat, companion inputs before/after) and every generated file compared byte for byte with the canonical run of each input alone; page bodies of selected files are also compared with the file documented alone (nothing a process documented earlier may show); runs go through the packaged entry script src/main.py; GenRst.tla histories (settings, sources incl. back-dated ones and the tree's shape change between calls into the same output directory) are replayed as one process per call and as calls inside one process: what an earlier run left on disk or in the interpreter is no input.",
             "colliding output paths (two directory inputs) out of scope; sample sizes in evidence", "4 C17"),
-    "C18": ("spec/Walk.tla (effect log), MC_Walk.tla",
-            "TLC checks the effect invariants of the walk specification (C18_NoWritesWithoutOut, C18_NoPrintsWithOut, C18_WritesUnderOut, C18_SortedPerDirectory); each terminal behaviour is run through the real cminx.main with and without -o in fresh sandboxes with complete before/after snapshots (paths and bytes, HOME included) and captured stdout; created/changed/deleted paths are compared with the output directory and stdout with the concatenation of the written pages.",
+    "C18": ("spec/Walk.tla (effect log), MC_Walk.tla, GenRst.tla, MC_GenRst.tla",
+            "TLC checks the effect invariants of the walk specification (C18_NoWritesWithoutOut, C18_NoPrintsWithOut, C18_WritesUnderOut, C18_SortedPerDirectory); each terminal behaviour is run through the real cminx.main with and without -o in fresh sandboxes with complete before/after snapshots (paths and bytes, HOME included) and captured stdout; created/changed/deleted paths are compared with the output directory and stdout with the concatenation of the written pages; GenRst.tla histories with a switch to a second output directory are replayed inside one process: TLC checks OtherTargetUntouched, the harness compares the first directory with its snapshot at the switch and the second with a fresh run.",
             "diagnostics-free inputs; output styles abs/relative/parent/inside-top/inside-sub; four settings variants", "4 C18"),
     "C19": ("spec/Runs.tla (GenArgv), MC_Runs.tla, GenRst.tla, MC_GenRst.tla, cmake -P + recording shim",
             "GenRst.tla: repeated calls on one build tree with edits of sources / the -s file and deleted pages in between, C19_TreeIsCurrent after every call, every history up to the bound executed for real and the final tree compared with a fresh command-line run. TLC checks C19_Argv for every input kind x extra-argument list (incl. arguments with blanks and backslashes); each case runs the real cmake/cminx.cmake under cmake -P with CMINX_EXECUTABLE bound to a shim that logs argv and runs the working-tree CMinx; compared: logged argv vs. the specification's, cmake failing fatally iff CMinx fails, output tree vs. the direct command-line run.",
